@@ -218,8 +218,10 @@ func oracleC13(o *obs) []mc.Violation {
 			}
 		}
 		if o.sc.Opt.NoSplits {
-			// without split points the verifying reply is whatever the repository's VerifyHeader
-			// accepts, but a reply there must have been: a headers message after the handshake
+			// a repository without split points names no header that identifies its chain: its
+			// VerifyHeader accepts nothing, so no peer of such a repository is ever verified -
+			// whatever other connections of the process (on other repositories) have been shown
+			vs = append(vs, fail(o, "verified-on-a-repository-that-verifies-nothing", "", "the peer is treated as verified although its node's repository has no split point and accepts no header as proof of the chain"))
 			handshakeFirst = false
 			version, verack = false, false
 			for _, l := range o.all {
